@@ -68,6 +68,11 @@ def _run_task(i):
     try:
         if ob.kind == 'symx':
             res = symx.explore(lambda ctx: ob.run(ctx, case), max_seconds=ob.budget_s).as_dict()
+            if res['status'] == 'error' and 'infeasible path' in str(res.get('detail')):
+                # decisions of a re-executed path prefix did not line up: the code under test kept state from an earlier path of this
+                # process (never the case on the unchanged tree). Explore again with every path in its own process.
+                res = symx.explore(lambda ctx: ob.run(ctx, case), max_seconds=ob.budget_s, isolate=True).as_dict()
+                res['detail'] = (res.get('detail') or '') + ' [explored with per-path process isolation]'
         else:
             res = ob.run(case)
     except BaseException as e:  # harness bug: never a verdict
@@ -123,6 +128,13 @@ def _match_known(pid, obname, case, cex, failed, text):
 def do_replay(path):
     """stand-alone replay of a witness against the real code (no solver, no proxies)"""
     from lib import symx
+    try:
+        # a changed tree may loop while allocating: fail with MemoryError (a reproduced failure) instead of exhausting the machine
+        import resource
+        lim = int(os.environ.get('VERIF_REPLAY_MEM_GB', '4')) << 30
+        resource.setrlimit(resource.RLIMIT_AS, (lim, lim))
+    except Exception:
+        pass
     d = json.load(open(path))
     mod = importlib.import_module('harness.' + d['property'].lower())
     obs = {o.name: o for o in mod.obligations(d.get('tier', 'quick'))}
@@ -248,10 +260,13 @@ def main(argv):
             env['PYTHONPATH'] = VERIF + ':' + REPO
             hang = str(r.get('failed') or '').startswith('does not terminate')
             try:
-                p = subprocess.run([REPLAY_PY, os.path.join(VERIF, 'lib', 'runner.py'), '--replay', rp], capture_output=True, text=True, timeout=max(60, 3 * int(os.environ.get('VERIF_PATH_TIMEOUT', '60'))) if hang else 600, env=env)
+                p = subprocess.run([REPLAY_PY, os.path.join(VERIF, 'lib', 'runner.py'), '--replay', rp], capture_output=True, text=True, timeout=max(60, 3 * int(os.environ.get('VERIF_PATH_TIMEOUT', '60'))), env=env)
                 rc, out = p.returncode, p.stdout + p.stderr
             except subprocess.TimeoutExpired:
-                rc, out = (1, 'REPRODUCED: the replay on the real code does not terminate either (killed)') if hang else (2, 'replay timed out')
+                # replays are single concrete runs of the real code (well under a second on the unchanged tree)
+                rc, out = (1, 'REPRODUCED: the replay of this witness on the real code does not terminate (killed after %d s)' % max(60, 3 * int(os.environ.get('VERIF_PATH_TIMEOUT', '60'))))
+                if not hang:
+                    r = dict(r, failed='does not terminate on the real code (found while replaying: %s)' % r.get('failed'))
             if rc == 0 and o.kind == 'symx':
                 # the witness does not reproduce in a fresh process: state kept by the code under test may have leaked from an earlier
                 # path of the exploration. Explore this case again with every path in its own process and replay what that finds.
@@ -261,10 +276,10 @@ def main(argv):
                     json.dump({'property': pid, 'obligation': o.name, 'tier': tier, 'case': _jsonable(case), 'cex': _jsonable(r2.get('cex')),
                                'failed': r2.get('failed'), 'detail': 'found with per-path process isolation'}, open(rp, 'w'), indent=1)
                     try:
-                        p = subprocess.run([REPLAY_PY, os.path.join(VERIF, 'lib', 'runner.py'), '--replay', rp], capture_output=True, text=True, timeout=600, env=env)
+                        p = subprocess.run([REPLAY_PY, os.path.join(VERIF, 'lib', 'runner.py'), '--replay', rp], capture_output=True, text=True, timeout=180, env=env)
                         rc, out = p.returncode, p.stdout + p.stderr
                     except subprocess.TimeoutExpired:
-                        rc, out = 2, 'replay timed out'
+                        rc, out = 1, 'REPRODUCED: the replay of this witness on the real code does not terminate (killed after 180 s)'
                     r = dict(r, failed=r2.get('failed'), cex=r2.get('cex'))
                 elif r2['status'] == 'ok':
                     out += '\n(with every path in its own process the obligation holds: the first witness came from state leaking between paths of one process)'
